@@ -48,13 +48,25 @@ def learn_prune_traces(rep, tier, seed):
     metas = []
     orig_acc = g.opf_accuracy
     orig_fit, orig_predict = SupervisedOPF.fit, SupervisedOPF.predict
-    for i in range(500 if thorough else 120):
+    nsmall = 500 if thorough else 120
+    nbig = 400 if thorough else 90
+    for i in range(nsmall + nbig):
         r = np.random.default_rng(rng.randrange(2**31))
         nt, nv = rng.randrange(5, 14), rng.randrange(3, 9)
         k = rng.choice([2, 2, 3])
         sep = rng.choice([0.6, 1.2, 2.5])
         yt = np.array([j % k for j in range(nt)])
         yv = np.array([j % k for j in range(nv)])
+        if i >= nsmall and (i - nsmall) % 3 == 0:
+            # large validation sets with classes of slightly different sizes and many errors: accuracies of successive iterations
+            # then differ by amounts far below 1e-4 (one error moved between classes of 44 and 45 samples changes the measure by
+            # 8e-5) - "highest" is meant exactly
+            k = 3
+            nt, nv = rng.randrange(18, 34), rng.randrange(125, 150)
+            sep = rng.choice([0.4, 0.6, 0.8])
+            yt = np.array([j % k for j in range(nt)])
+            sizes = [nv // 3 - 1, nv // 3, nv - 2 * (nv // 3) + 1]
+            yv = np.array([0] * sizes[0] + [1] * sizes[1] + [2] * sizes[2])
         Xt = r.normal(size=(nt, 2)) + sep * yt[:, None]
         Xv = r.normal(size=(nv, 2)) + sep * yv[:, None]
         if i % 4 == 0:
@@ -64,14 +76,27 @@ def learn_prune_traces(rep, tier, seed):
             Xt, Xv = np.round(Xt), np.round(Xv)
         I = H.Interner()
         met = rng.choice(["euclidean", "log_squared_euclidean", "manhattan"])
-        kind = "learn" if i % 2 == 0 else "prune"
-        iters = rng.randrange(1, 6)
+        kind = "learn" if (i % 2 == 0 or i >= nsmall) else "prune"
+        iters = rng.randrange(1, 6) if i < nsmall else rng.randrange(4, 9)
         m = SupervisedOPF(distance=met)
         log = []
         meta = {"kind": kind, "metric": met, "Xt": Xt.tolist(), "yt": yt.tolist(), "Xv": Xv.tolist(), "yv": yv.tolist(), "n_iterations": iters, "np_seed": i}
 
+        script = None
+        if i >= nsmall and (i - nsmall) % 3 != 0:
+            # spec -> code: the criterion values of the iterations are scripted (the real learn() loop is driven with them through the
+            # wrapper it is observed with): every sequence over four levels, on a coarse scale (0.1 apart) and on a fine one (3e-5
+            # apart, below the loop's own 1e-4 stop tolerance) - "the highest" is meant exactly, also among nearly equal values
+            j_ = (i - nsmall)
+            levels = [(j_ // (4 ** p_)) % 4 for p_ in range(4)]
+            step = 3e-5 if j_ % 2 else 0.1
+            script = [0.35 + step * lv for lv in levels]
+            meta["scripted_accuracies"] = script
+
         def acc_w(labels, preds):
             v = orig_acc(labels, preds)
+            if script is not None:
+                v = script[min(sum(1 for x in log if x[0] == "acc"), len(script) - 1)]
             log.append(("acc", float(v), I("state", SC.model_state(m, "predstate"))))
             return v
 
